@@ -17,6 +17,7 @@
 -/
 import BklProofs.Lemmas.ToolsIntersect
 import BklProofs.C15
+import BklProofs.Lemmas.ToolsCliProofs
 namespace Bkl
 
 /-! ### the shared witnesses `C16_a`, `C16_b`, `C16_c` are in Lemmas/ToolsIntersect.lean -/
@@ -204,5 +205,183 @@ example : (∀ x ∈ [C16_a, C16_b, C16_c], plainVal x = true) ∧
     (∀ x ∈ [C16_a, C16_b, C16_c], x.isMap = true) ∧
     (∃ t, Val.map t ∈ [C16_a, C16_b, C16_c]) :=
   ⟨by decide, by decide, _, List.mem_cons_self⟩
+
+/-! ## 6. the tool main: cmd/bkli/main.go (`Bkl.bkliRun`, Bkl/ToolsCli.lean)
+
+  Helper lemmas are in BklProofs/Lemmas/ToolsCliProofs.lean (prefix `tc_`); the sample file
+  system `tc_toolFS` is described in BklProofs/C15.lean. -/
+
+/-- bkli succeeds exactly when it has at least two inputs, every input yields exactly one
+    merged document (`getOnlyDocument`: FileMatch, a fresh parser, MergeFileLayers — the documents
+    are NOT evaluated), and the chosen format is supported.  The emitted document is
+    `intersectAll` of the merged documents in argument order, `none` if that is `null`; the
+    format is `toolFormat` (`-f`, else `-o`'s extension) with the first input's format as
+    fallback. -/
+theorem C16_bkli_result_iff (fs : FS) (cwd : Comps) (opts : ToolOpts) (r : ToolResult) :
+    bkliRun fs cwd opts = .ok r ↔
+      ∃ first second rest d0 f0 ds,
+        opts.inputs = first :: second :: rest ∧
+        List.Forall₂ (fun p (d : Val × String) => getOnlyDocument fs cwd p = .ok d)
+          (first :: second :: rest) ((d0, f0) :: ds) ∧
+        toolFormat opts f0 ∈ supportedExts ∧
+        r = { format := toolFormat opts f0,
+              doc := if (intersectAll (d0 :: ds.map (·.1))).isNull then none
+                     else some (intersectAll (d0 :: ds.map (·.1))) } :=
+  tc_bkliRun_ok_iff fs cwd opts r
+
+/-- the forward direction, field by field -/
+theorem C16_bkli_result (fs : FS) (cwd : Comps) (opts : ToolOpts) (r : ToolResult)
+    (h : bkliRun fs cwd opts = .ok r) :
+    2 ≤ opts.inputs.length ∧
+    ∃ docs : List (Val × String),
+      List.Forall₂ (fun p (d : Val × String) => getOnlyDocument fs cwd p = .ok d)
+        opts.inputs docs ∧
+      docs.length = opts.inputs.length ∧
+      r.doc = (if (intersectAll (docs.map (·.1))).isNull then none
+               else some (intersectAll (docs.map (·.1)))) ∧
+      (r.doc = none ↔ intersectAll (docs.map (·.1)) = .null) ∧
+      (∀ v, r.doc = some v → v = intersectAll (docs.map (·.1))) ∧
+      (∃ d0 f0 ds, docs = (d0, f0) :: ds ∧ r.format = toolFormat opts f0) ∧
+      r.format ∈ supportedExts := by
+  obtain ⟨first, second, rest, d0, f0, ds, hi, hf, hmem, rfl⟩ :=
+    (C16_bkli_result_iff fs cwd opts r).1 h
+  refine ⟨by rw [hi]; simp, (d0, f0) :: ds, by rw [hi]; exact hf,
+    by rw [hi]; exact (tc_forall2_length hf).symm, rfl, ?_, ?_, ⟨d0, f0, ds, rfl, rfl⟩, hmem⟩
+  · simp only [List.map_cons]
+    split
+    · rename_i hn; simpa using (tc_isNull_iff _).1 hn
+    · rename_i hn
+      simp only [reduceCtorEq, false_iff]
+      exact fun e => hn ((tc_isNull_iff _).2 e)
+  · intro v hv
+    simp only [List.map_cons] at hv ⊢
+    split at hv
+    · cases hv
+    · cases hv; rfl
+
+/-- `bkli a.yaml c.json` on the sample file system: format from the first input -/
+theorem C16_bkli_sample :
+    bkliRun tc_toolFS ["w"] { inputs := ["a.yaml", "c.json"] } =
+      .ok { format := "yaml", doc := some (.map [("a", .int 1), ("b", .str "$required")]) } := by
+  rw [C16_bkli_result_iff]
+  refine ⟨"a.yaml", "c.json", [], tc_base, "yaml", [(tc_third, "json")], rfl,
+    .cons tc_toolFS_get_a (.cons tc_toolFS_get_c .nil), by decide, ?_⟩
+  rw [show toolFormat { inputs := ["a.yaml", "c.json"] } "yaml" = "yaml" from rfl]
+  rw [show intersectAll (tc_base :: [(tc_third, "json")].map (·.1)) =
+    .map [("a", .int 1), ("b", .str "$required")] by decide]
+  rfl
+
+/-- `bkli -o out.toml a.yaml c.json t.yaml`: three inputs in argument order, format from `-o` -/
+theorem C16_bkli_sample3 :
+    bkliRun tc_toolFS ["w"] { outPath := some "out.toml", inputs := ["a.yaml", "c.json", "t.yaml"] } =
+      .ok { format := "toml", doc := some (.map [("a", .str "$required")]) } := by
+  rw [C16_bkli_result_iff]
+  refine ⟨"a.yaml", "c.json", ["t.yaml"], tc_base, "yaml", [(tc_third, "json"), (tc_target, "yaml")],
+    rfl, .cons tc_toolFS_get_a (.cons tc_toolFS_get_c (.cons tc_toolFS_get_t .nil)), ?_, ?_⟩
+  · rw [tc_toolFormat_o _ _ "out.toml" (.inl rfl) rfl (by rw [tc_ext_out_toml]; decide),
+      tc_ext_out_toml]
+    decide
+  · rw [tc_toolFormat_o _ _ "out.toml" (.inl rfl) rfl (by rw [tc_ext_out_toml]; decide),
+      tc_ext_out_toml]
+    rw [show intersectAll (tc_base :: [(tc_third, "json"), (tc_target, "yaml")].map (·.1)) =
+      .map [("a", .str "$required")] by decide]
+    rfl
+
+example : ∃ r, bkliRun tc_toolFS ["w"] { inputs := ["a.yaml", "c.json"] } = .ok r :=
+  ⟨_, C16_bkli_sample⟩
+
+/-- fewer than two inputs: bkli fails (go-flags: at least 2 positional arguments) -/
+theorem C16_bkli_needs_two (fs : FS) (cwd : Comps) (opts : ToolOpts)
+    (h : opts.inputs.length < 2) : bkliRun fs cwd opts = .error .other := by
+  rcases hi : opts.inputs with _ | ⟨p, _ | ⟨q, rest⟩⟩
+  · exact tc_bkliRun_nil fs cwd opts hi
+  · exact tc_bkliRun_one fs cwd opts p hi
+  · rw [hi] at h; simp only [List.length_cons] at h; omega
+
+example : ({ inputs := ["a.yaml"] } : ToolOpts).inputs.length < 2 := by decide
+
+/-- The CLI result is common to all inputs (`C16_fold`, `C16_fold_wf`) and the migrate workflow
+    through the CLI is lossless (`C16_lossless_migrate`): if bkli succeeds and the merged
+    document of every input is plain, then a document `base` is emitted, it is the fold of the
+    merged documents, well-formed and null-free, a sub-document of the merged document of every
+    input, and bkld's `diff` of each input's merged document against it is `same` or a patch
+    that `merge` accepts over `base` and that reproduces the input. -/
+theorem C16_bkli_cli_common (fs : FS) (cwd : Comps) (opts : ToolOpts) (r : ToolResult)
+    (docs : List (Val × String)) (h : bkliRun fs cwd opts = .ok r)
+    (hf : List.Forall₂ (fun p (d : Val × String) => getOnlyDocument fs cwd p = .ok d)
+      opts.inputs docs)
+    (hpl : ∀ d ∈ docs, plainVal d.1 = true) :
+    ∃ base, r.doc = some base ∧ base = intersectAll (docs.map (·.1)) ∧
+      Val.WF base ∧ base.nullFree = true ∧
+      (∀ p ∈ opts.inputs, ∀ d f, getOnlyDocument fs cwd p = .ok (d, f) → Sub base d) ∧
+      (∀ p ∈ opts.inputs, ∀ d f, getOnlyDocument fs cwd p = .ok (d, f) →
+        match diff d base with
+        | .same => d = base
+        | .patch q => merge base q = .ok d
+        | .replaceParent => False) := by
+  obtain ⟨h2, docs', hf', hlen, hdoc, _, _, _, _⟩ := C16_bkli_result fs cwd opts r h
+  obtain rfl := tc_forall2_getOnly_unique hf hf'
+  have hpl' : ∀ x ∈ docs.map (·.1), plainVal x = true := by
+    intro x hx
+    obtain ⟨d, hd, rfl⟩ := List.mem_map.1 hx
+    exact hpl d hd
+  have hne : docs.map (·.1) ≠ [] := by
+    intro e
+    have : docs.length = 0 := by simpa using congrArg List.length e
+    omega
+  have hwf := C16_fold_wf _ hne hpl'
+  have hnn : (intersectAll (docs.map (·.1))).isNull = false := by
+    cases hn : (intersectAll (docs.map (·.1))).isNull
+    · rfl
+    · exact absurd ((tc_isNull_iff _).1 hn) (nullFree_ne_null hwf.2)
+  have hmemdoc : ∀ p ∈ opts.inputs, ∀ d f, getOnlyDocument fs cwd p = .ok (d, f) →
+      d ∈ docs.map (·.1) := by
+    intro p hp d f hg
+    obtain ⟨b, hb, hgb⟩ := tc_forall2_mem_left hf p hp
+    rw [hg] at hgb
+    cases hgb
+    exact List.mem_map.2 ⟨(d, f), hb, rfl⟩
+  refine ⟨intersectAll (docs.map (·.1)), ?_, rfl, hwf.1, hwf.2, ?_, ?_⟩
+  · rw [hdoc, hnn]; rfl
+  · intro p hp d f hg
+    exact C16_fold _ hpl' d (hmemdoc p hp d f hg)
+  · intro p hp d f hg
+    exact C16_lossless_migrate _ hpl' d (hmemdoc p hp d f hg)
+
+example : (∃ r, bkliRun tc_toolFS ["w"] { inputs := ["a.yaml", "c.json"] } = .ok r) ∧
+    List.Forall₂ (fun p (d : Val × String) => getOnlyDocument tc_toolFS ["w"] p = .ok d)
+      ({ inputs := ["a.yaml", "c.json"] } : ToolOpts).inputs
+      [(tc_base, "yaml"), (tc_third, "json")] ∧
+    (∀ d ∈ [(tc_base, "yaml"), (tc_third, "json")], plainVal d.1 = true) :=
+  ⟨⟨_, C16_bkli_sample⟩, .cons tc_toolFS_get_a (.cons tc_toolFS_get_c .nil), by decide⟩
+
+/-- Two inputs (`C16_common` / `C16_fold_partial`): no `$`-freeness is needed.  If the merged
+    documents are null-free and the second one is well-formed, bkli emits `intersect second first`
+    and it is a sub-document of both. -/
+theorem C16_bkli_cli_common_two (fs : FS) (cwd : Comps) (opts : ToolOpts) (r : ToolResult)
+    (p q : String) (a b : Val) (fa fb : String)
+    (h : bkliRun fs cwd opts = .ok r) (hi : opts.inputs = [p, q])
+    (hp : getOnlyDocument fs cwd p = .ok (b, fb)) (hq : getOnlyDocument fs cwd q = .ok (a, fa))
+    (ha : Val.WF a) (han : a.nullFree = true) (hbn : b.nullFree = true) :
+    r.doc = some (intersect a b) ∧ r.format = toolFormat opts fb ∧
+      Sub (intersect a b) a ∧ Sub (intersect a b) b := by
+  obtain ⟨_, docs, hf, _, hdoc, _, _, ⟨d0, f0, ds, hd, hfmt⟩, _⟩ := C16_bkli_result fs cwd opts r h
+  have hf2 : List.Forall₂ (fun p (d : Val × String) => getOnlyDocument fs cwd p = .ok d)
+      opts.inputs [(b, fb), (a, fa)] := by
+    rw [hi]; exact .cons hp (.cons hq .nil)
+  obtain rfl := tc_forall2_getOnly_unique hf hf2
+  cases hd
+  have hc := C16_common a b ha han hbn
+  refine ⟨?_, hfmt, hc.1, hc.2⟩
+  rw [hdoc]
+  have : intersectAll ([(b, fb), (a, fa)].map (·.1)) = intersect a b := rfl
+  rw [this, intersect_isNull (nullFree_ne_null han) (nullFree_ne_null hbn)]
+  rfl
+
+example : (∃ r, bkliRun tc_toolFS ["w"] { inputs := ["a.yaml", "c.json"] } = .ok r) ∧
+    getOnlyDocument tc_toolFS ["w"] "a.yaml" = .ok (tc_base, "yaml") ∧
+    getOnlyDocument tc_toolFS ["w"] "c.json" = .ok (tc_third, "json") ∧
+    Val.WF tc_third ∧ tc_third.nullFree = true ∧ tc_base.nullFree = true :=
+  ⟨⟨_, C16_bkli_sample⟩, tc_toolFS_get_a, tc_toolFS_get_c, by decide, by decide, by decide⟩
 
 end Bkl
